@@ -26,7 +26,10 @@ SlotS(cfg) == IF cfg = "s" THEN 1 ELSE IF cfg \in {"sf", "sfuf"} THEN 2 ELSE 0  
 SlotU(cfg) == IF cfg = "u" THEN 1 ELSE IF cfg = "sfuf" THEN 2 ELSE IF cfg = "us" THEN 3 ELSE 0   \* 3: initarg :s shared
 VARIABLES cls,     \* cls[c] = [def, supers : Seq(C), cfg]
           made,    \* ghost: classes of which an instance has been made so far
-          hist, feat
+          hist, feat,
+          meth,    \* classes for which a method of the message :who (and of the generic function whog) has been defined
+          lost     \* ghost for the named deviation of open finding C12-F3: classes redefined since their :who method was defined
+                   \* (the implementation builds a new class object and the methods defined with (defmethod (class :message)) are gone)
 Undef == [def |-> FALSE, supers |-> <<>>, cfg |-> "none"]
 Rng(s) == {s[i] : i \in 1..Len(s)}
 NoDup(s) == \A i, j \in 1..Len(s) : i # j => s[i] # s[j]
@@ -71,7 +74,7 @@ Subclasses(t, c) == {d \in C : d # c /\ t[d].def /\ c \in Reach(t, d, {})}
 \* feature tags: constructs for which the implementation has a recorded finding
 ClassFeatures(t, c) == IF HasS(t, c) /\ USharesS(t, c) THEN {"initarg-shared-by-two-slots"} ELSE {}
 
-Init == cls = [c \in C |-> Undef] /\ made = {} /\ hist = <<>> /\ feat = {}
+Init == cls = [c \in C |-> Undef] /\ made = {} /\ hist = <<>> /\ feat = {} /\ meth = {} /\ lost = {}
 \* class names are arbitrary: the first mention (definition or forward reference) of the names follows ca, cb, ...
 Mentioned(t) == {c \in C : t[c].def} \cup UNION {Rng(t[c].supers) : c \in C}
 NameOrderOK(t) == \A c \in Mentioned(t) : \A i \in 1..(Idx(c) - 1) : AllC[i] \in Mentioned(t)
@@ -80,24 +83,32 @@ DefClass(c, sups, cfg) ==
   /\ c \notin Rng(sups) /\ NoDup(sups) /\ Acyclic(t2) /\ t2 # cls /\ NameOrderOK(t2)
   \* a redefinition that makes the class (and its subclasses) wait for a not-yet-defined class is outside the statement
   /\ cls[c].def => \A i \in 1..Len(sups) : cls[sups[i]].def /\ Ready(cls, sups[i])
-  /\ cls' = t2 /\ made' = made
+  /\ cls' = t2 /\ made' = made /\ meth' = meth /\ lost' = (IF cls[c].def /\ c \in meth THEN lost \cup {c} ELSE lost)
   /\ hist' = Append(hist, [op |-> "defclass", c |-> c, supers |-> sups, cfg |-> cfg])
   /\ feat' = feat \cup UNION {ClassFeatures(t2, d) : d \in {e \in C : t2[e].def /\ Ready(t2, e)}}
 Make(c) == /\ cls[c].def /\ Ready(cls, c) /\ c \notin made
-           /\ made' = made \cup {c} /\ cls' = cls /\ feat' = feat
+           /\ made' = made \cup {c} /\ cls' = cls /\ feat' = feat /\ meth' = meth /\ lost' = lost
            /\ hist' = Append(hist, [op |-> "make", c |-> c, supers |-> <<>>, cfg |-> ""])
+\* a method specialised on the class: of the message :who (defmethod (c :who) ...) and of the generic function whog
+\* (defmethod whog ((x c)) ...); what answers for an instance of a class is the method of the first class of its precedence
+\* list that has one - whether the method was defined before or after the classes that inherit it, also after a redefinition
+DefMeth(c) == /\ cls[c].def /\ Ready(cls, c) /\ (c \notin meth \/ c \in lost)       \* defined, or defined again after a redefinition of the class
+              /\ meth' = meth \cup {c} /\ lost' = lost \ {c} /\ cls' = cls /\ made' = made /\ feat' = feat
+              /\ hist' = Append(hist, [op |-> "defmeth", c |-> c, supers |-> <<>>, cfg |-> ""])
+Who(t, me, c) == LET w == SelectSeq(Prec(t, c), LAMBDA d : d \in me) IN IF w = <<>> THEN "none" ELSE w[1]
 Next == /\ Len(hist) < MaxOps
         /\ \/ \E c \in C, sups \in SeqsUpTo(C, MaxSupers), cfg \in Cfgs : DefClass(c, sups, cfg)
            \/ \E c \in C : Make(c)
-ExpectOf(t) == [c \in {d \in C : t[d].def} |->
+           \/ \E c \in C : DefMeth(c)
+ExpectOf(t, me, lo) == [c \in {d \in C : t[d].def} |->
              IF Ready(t, c)
              THEN [ready |-> TRUE, prec |-> Prec(t, c), s0 |-> S0(t, c), u0 |-> U0(t, c), s1 |-> S1(t, c), u1 |-> U1(t, c),
                    acc |-> AcceptsS(t, c), shared |-> (HasS(t, c) /\ USharesS(t, c)),
-                   isa |-> {d \in C : t[d].def /\ Ready(t, d) /\ d \in Rng(Prec(t, c))}]
-             ELSE [ready |-> FALSE, prec |-> <<>>, s0 |-> 0, u0 |-> 0, s1 |-> 0, u1 |-> 0, acc |-> FALSE, shared |-> FALSE, isa |-> {}]]
-Emit == Len(hist') < EmitFrom \/ PrintT(ToJson([hist |-> hist', expect |-> ExpectOf(cls'), feat |-> feat']))
-EmitState == Len(hist) < EmitFrom \/ RandomElement(1..Thin) # 1 \/ PrintT(ToJson([hist |-> hist, expect |-> ExpectOf(cls), feat |-> feat]))
-View == <<cls, made>>
+                   isa |-> {d \in C : t[d].def /\ Ready(t, d) /\ d \in Rng(Prec(t, c))}, who |-> Who(t, me, c), whodev |-> Who(t, me \ lo, c)]
+             ELSE [ready |-> FALSE, prec |-> <<>>, s0 |-> 0, u0 |-> 0, s1 |-> 0, u1 |-> 0, acc |-> FALSE, shared |-> FALSE, isa |-> {}, who |-> "none", whodev |-> "none"]]
+Emit == Len(hist') < EmitFrom \/ PrintT(ToJson([hist |-> hist', expect |-> ExpectOf(cls', meth', lost'), feat |-> feat']))
+EmitState == Len(hist) < EmitFrom \/ RandomElement(1..Thin) # 1 \/ PrintT(ToJson([hist |-> hist, expect |-> ExpectOf(cls, meth, lost), feat |-> feat]))
+View == <<cls, made, meth, lost>>
 \* ---- design checks on the reference ------------------------------------------------------------------------
 PrecOK == \A c \in C : (cls[c].def /\ Ready(cls, c)) =>
             LET p == Prec(cls, c) IN
